@@ -11,7 +11,7 @@ ASSUMPTIONS = ["start order is asserted only for tasks first scheduled by a yiel
 
 
 def strategy(tier):
-    return gen.programs(gen.Cfg(max_tasks=14 if tier == "quick" else 40, sync=False, ctx=(), dag=True, orphans=True, tools=("dd", "alru", "agen", "amap", "asorted", "amin", "amax", "afilter", "retry", "cwc"), 
+    return gen.programs(gen.Cfg(max_tasks=14 if tier == "quick" else 40, sync=False, ctx=(), dag=True, orphans=True, premade=True, tools=("dd", "alru", "agen", "amap", "asorted", "amin", "amax", "afilter", "retry", "cwc"), 
                                 shapes=("chain", "tree", "comb", "comb", "diamond", "diamond", "stagger", "free", "free")))
 
 
